@@ -15,6 +15,8 @@ mod c05;
 mod c06;
 mod big;
 mod c08;
+mod c17;
+mod c20;
 mod serde_abs;
 mod types_gen;
 mod serde;
@@ -71,6 +73,10 @@ fn main() {
         "c15-replay" => c15::replay_case(&cfg),
         "serde" => serde::run(&cfg),
         "serde-replay" => serde::replay_case(&cfg),
+        "c20" => c20::run(&cfg),
+        "c20-replay" => c20::replay_case(&cfg),
+        "c17" => c17::run(&cfg),
+        "c17-replay" => c17::replay_case(&cfg),
         "c01" => c01::run(&cfg),
         "c01-replay" => c01::replay_case(&cfg),
         x => {
